@@ -3,7 +3,7 @@ import hashlib
 import operator
 
 from zope.interface import Interface, implementedBy
-from zope.interface.interface import InterfaceClass
+from zope.interface.interface import INTERFACE_METHODS, InterfaceClass
 
 NAMES = ['', 'A', 'AB', 'a', '\xe9', 'é', 'B', 'A_', 'Z', '\U0001f600']
 MODS = ['', 'm', 'mm', 'n', '\xfc', 'M', 'm.n', 'zope.interface.declarations']
@@ -16,6 +16,10 @@ def key(x):
 
 
 class NoAttrs:
+    pass
+
+
+class SubInterfaceClass(InterfaceClass):
     pass
 
 
@@ -46,11 +50,29 @@ def run_case(ctx, rng, job):
     for _ in range(rng.randint(1, 3)):
         t = rng.choice(ifs)
         ifs.append(InterfaceClass(fresh(t.__name__), (Interface,), {}, __module__=fresh(t.__module__)))
+    # equal-keyed twins whose concrete classes differ: an instance of an InterfaceClass subclass, and an interface
+    # defining an interfacemethod (the library builds a private InterfaceClass subclass for it)
+    for _ in range(rng.randint(1, 2)):
+        t = rng.choice(ifs)
+        if rng.random() < 0.5:
+            ifs.append(SubInterfaceClass(fresh(t.__name__), (Interface,), {}, __module__=fresh(t.__module__)))
+        else:
+            ifs.append(InterfaceClass(fresh(t.__name__), (Interface,),
+                                      {INTERFACE_METHODS: {'extra_method': lambda self: 1}}, __module__=fresh(t.__module__)))
+        ctx.count('twins_of_another_concrete_class')
     classes = []
     for _ in range(rng.randint(2, 4)):
         c = type(rng.choice(['A', 'B', 'Z', 'K']), (), {})
         c.__module__ = rng.choice(['m', 'n', ''])
         classes.append(c)
+    # distinct classes sharing one fully qualified name (class factories, reloaded modules): their specifications
+    # have equal keys, are not equal, and must not be ordered in either direction
+    for _ in range(rng.randint(1, 2)):
+        t = rng.choice(classes)
+        c = type(t.__name__, (), {})
+        c.__module__ = t.__module__
+        classes.append(c)
+        ctx.count('same_qualified_name_classes')
     specs = [implementedBy(c) for c in classes]
     # a class specification whose key collides with an interface's key
     collide = type('AB', (), {})
